@@ -18,7 +18,7 @@
    ColumnSortHelper.Sort model to the replay, C02_reorganisation_invisible is the corollary for flush / compaction /
    merges / reopen. *)
 From Coq Require Import ZArith List Bool.
-From OG Require Import C02.Model C02.Proofs C02.Corr C02.Refine C02.FileCursor.
+From OG Require Import C02.Model C02.Proofs C02.Corr C02.Refine C02.FileCursor C02.LayoutOk C02.CorrAgg.
 Import ListNotations.
 Open Scope Z_scope.
 
@@ -140,6 +140,32 @@ Theorem C02_filecursor_desc_repaired_is_lww : forall h s, ops_allowed h = true -
 Proof. exact fc_stream_desc_is_lww. Qed.
 Print Assumptions C02_filecursor_desc_repaired_is_lww.
 
+(* the aggregates the evaluator recomputes on the model of the file-cursor walk (CorrAgg.v: count / sum / min / max /
+   first / last, ascending and descending) are the aggregates over the last-write-wins rows *)
+Theorem C02_filecursor_aggregate_is_lww : forall h o, ops_allowed h = true ->
+  fc_agg o (run false h) =
+  agg_of (a_fn o) (field_vals (a_f o) (a_tmin o) (a_tmax o)
+                     (if a_desc o then rev (sel (a_s o) (lww_table (writes_of h))) else sel (a_s o) (lww_table (writes_of h)))).
+Proof. exact fc_agg_is_lww. Qed.
+Print Assumptions C02_filecursor_aggregate_is_lww.
+
+(* THE LAYOUT PREDICATE IS AN INVARIANT, not an assumption: write, flush (plain / paused), compaction, merge-self and
+   reopen preserve it (sequences ascending; ordered files per-series time-increasing by position - the flush split at the
+   flush time and the adjacency of compaction groups are exactly what keeps it) *)
+Theorem C02_layout_ok_preserved : forall L o, layout_ok L = true -> op_ok L o = true -> is_merge_ooo o = false ->
+  layout_ok (step false L o) = true.
+Proof. exact step_layout_ok. Qed.
+Print Assumptions C02_layout_ok_preserved.
+
+(* hence the planner predicate alone (op_ok + write_ok per op; the layout predicate only for the RESULT of an out-of-order
+   merge, whose placement bounds are parameters taken from the store) implies the hypothesis of the theorems above *)
+Theorem C02_planned_is_allowed : forall h, ops_planned h = true -> ops_allowed h = true.
+Proof. exact planned_allowed. Qed.
+Theorem C02_read_is_lww_planner_only : forall h, ops_planned h = true -> forall s tmin tmax fs asc,
+  read_layout (run false h) s tmin tmax fs asc = shape tmin tmax fs asc (sel s (lww_table (writes_of h))).
+Proof. exact read_is_lww_planned. Qed.
+Print Assumptions C02_read_is_lww_planner_only.
+
 (* ---- Examples: concrete histories on the executable model (closed by vm_compute) ---- *)
 Definition r (s t : Z) (fs : list (Z * Z)) : row := ((s, t), fs).
 Definition h1 : list op :=
@@ -176,3 +202,6 @@ Example C02_example_filecursor_desc_repaired :
   Corr_eq (rev (fc_rows false true (run false h) 0)) (sel 0 (lww_table (writes_of h))) = false /\
   fc_rows false false (run false h) 0 = sel 0 (lww_table (writes_of h)).
 Proof. vm_compute. repeat split. Qed.
+
+Example C02_example_ops_planned : ops_planned h1 = true.
+Proof. vm_compute. reflexivity. Qed.
